@@ -37,7 +37,7 @@ ASSUMPTIONS = ['Blob is excluded: not a documented or creatable column type (doc
                'GRIST_TRUTHY_VALUES/GRIST_FALSY_VALUES are unset']
 TECHNIQUE = 'function-level PBT with contract predicate'
 BUDGET = {'quick': dict(examples=8000, shards=8, max_seconds=60),
-          'thorough': dict(examples=64000, shards=16, max_seconds=600)}
+          'thorough': dict(examples=64000, shards=16, max_seconds=1800)}
 
 COLS = [('c_text', 'Text'), ('c_num', 'Numeric'), ('c_int', 'Int'), ('c_bool', 'Bool'), ('c_date', 'Date'),
         ('c_dt_utc', 'DateTime:UTC'), ('c_dt_ny', 'DateTime:America/New_York'), ('c_dt_bad', 'DateTime:No/Such_Zone'),
